@@ -89,6 +89,7 @@ def isoLoopM (p dp : MPoly) (y : Nat) : Nat → Nat → Asg → Rat → Rat → 
   | fuel+1, budget+1, a, lo, hi =>
     let J := ievalM p (boxY a y lo hi)
     if 0 < J.lo ∨ J.hi < 0 then some ([], budget)
+    else if hi - lo < 1 / 65536 then none       -- clustered or multiple roots: this method cannot separate them, give up early
     else
       let J' := ievalM dp (boxY a y lo hi)
       if 0 < J'.lo ∨ J'.hi < 0 then
